@@ -33,6 +33,9 @@ class C04Step1D(Harness):
         # started empty with align=False: the first value defines the shift
         for call in ("fill", "filln2"):
             yield f"a1d-empty-noalign-{call}", dict(n=0, call=call, shift=False, noalign=True, reach=3)
+        # the histogram is looked at (bins, find_bin, edges) before it is filled: cached representations must not go stale
+        for n, call in ((0, "fill"), (0, "filln2"), (2, "fill"), (1, "filln2_w")):
+            yield f"a1d-n{n}-{call}-inspected", dict(n=n, call=call, shift=False, reach=3, inspect=True)
 
     def declare(self, cx, p):
         n = p["n"]
@@ -82,6 +85,10 @@ class C04Step1D(Harness):
         h = H1(b, np.asarray(x["f"], dtype=int), np.asarray(x["q"], dtype=int)) if n else H1(b)
         call = p["call"]
         obs = {"ret": None}
+        if p.get("inspect"):
+            _ = (h.bins, h.numpy_bins, h.bin_left_edges, h.binning.bin_count, h.total)
+            if len(x["v"]):
+                E.attempt(h.find_bin, x["v"][0])
         if call == "fill":
             r = E.attempt(h.fill, x["v"][0])
             obs["ret"] = r
@@ -130,6 +137,8 @@ class C04Step1D(Harness):
             return
         tm = cx.t(grid["times_min"])
         yield "bin_count_consistent", z3.And(cx.eq(grid["bin_count"], z3.IntVal(M)), z3.BoolVal(len(fin["err2"]) == M and len(fin["bins"]) == M))
+        if len(fin["err2"]) != M or len(fin["bins"]) != M:
+            return
         # grid invariant: every edge = origin + k * width
         for k in range(M):
             yield f"edge_on_grid[{k}]", z3.And(cx.t(fin["bins"][k][0]) == (tm + k) * w + s, cx.t(fin["bins"][k][1]) == (tm + k + 1) * w + s)
